@@ -59,7 +59,9 @@ def pool_check(run, n, procs_list, count):
         for p in procs_list:
             evals += 1
             g = game_m.IncompleteCooperativeGame(n, bounds.BOUNDS[comp])
-            g.set_known_values([v[c] for c in K], [co.Coalition(c) for c in K])
+            # the work space holds the starting KNOWLEDGE; its values are those an earlier search of another game left
+            stale = [0.0 if c == 0 else v[c] + float(run.rng.randint(-3, 3)) for c in K] if i % 2 else [v[c] for c in K]
+            g.set_known_values(stale, [co.Coalition(c) for c in K])
             res = [([c.id for c in s], float(x)) for s, x in gp.get_exploitabilities_of_action_sequences(g, full, gapf, max_size=k, processes=p)]
             if ref is None:
                 ref = res
